@@ -25,7 +25,9 @@ import (
 	"github.com/elastos/Elastos.ELA/core/types/functions"
 	"github.com/elastos/Elastos.ELA/core/types/interfaces"
 	"github.com/elastos/Elastos.ELA/core/types/outputpayload"
+	"github.com/elastos/Elastos.ELA/core/types"
 	"github.com/elastos/Elastos.ELA/core/types/payload"
+	"github.com/elastos/Elastos.ELA/crypto"
 	"github.com/elastos/Elastos.ELA/elanet/bloom"
 	"github.com/elastos/Elastos.ELA/elanet/filter"
 	"github.com/elastos/Elastos.ELA/p2p/msg"
@@ -218,11 +220,12 @@ func guard(f func()) (pan interface{}) {
 }
 
 func main() {
-	if len(os.Args) < 3 || os.Args[1] != "replay" {
-		fmt.Fprintln(os.Stderr, "usage: bloom replay <behaviours.jsonl> [quick|thorough]")
+	if len(os.Args) < 3 || (os.Args[1] != "replay" && os.Args[1] != "block") {
+		fmt.Fprintln(os.Stderr, "usage: bloom replay|block <behaviours.jsonl> [quick|thorough]")
 		os.Exit(3)
 	}
 	thorough := len(os.Args) > 3 && os.Args[3] == "thorough"
+	blockMode := os.Args[1] == "block"
 	functions.GetTransactionByTxType = transaction.GetTransaction
 	functions.GetTransactionByBytes = transaction.GetTransactionByBytes
 	functions.CreateTransaction = transaction.CreateTransaction
@@ -269,6 +272,12 @@ func main() {
 					continue
 				}
 				r.side = side
+				if blockMode {
+					if !side {
+						nSteps += runBlock(w, p, tw, r, b, mode)
+					}
+					continue
+				}
 				s, q, fp := runBehaviour(w, r, b, mode)
 				nSteps += s
 				nQueries += q
@@ -402,6 +411,138 @@ func runBehaviour(w *world, r *real, b rep.Behaviour, mode string) (steps, queri
 			}
 			if !m {
 				rep.Violation("C39:false-negative:"+kind, fmt.Sprintf("filter %s does not match the %s %v that is in it (update mode %s)", r.name, kind, x, mode), ctx)
+				return
+			}
+		}
+	}
+	return
+}
+
+// runBlock (C08, the filter half): the behaviour's additions are loaded into a filter, its
+// MatchTx steps - distinct transactions, in that order - are the transactions of one block.
+// The merkle block served for that filter (both copies of the builder: the one over a bloom
+// Filter and the one over a filter.Filter holding a bloom TxFilter) must let the client
+// recover every transaction the protocol's matching rule (Bloom.tla) says matches: matched by
+// id, by an output paying a watched item, or by spending an output that matched earlier in
+// the same block (update mode permitting).
+func runBlock(w *world, p param, tw uint32, r *real, b rep.Behaviour, mode string) (steps int) {
+	ctx := map[string]interface{}{"filter": r.name, "mode": mode, "steps": short(b, len(b)-1)}
+	var txs []interfaces.Transaction
+	var ids []common.Uint256
+	var must []bool
+	var whys []string
+	var js []int
+	// the generic filter of elanet/filter, loaded with the same parameters
+	gf := filter.New(func(t uint8) filter.TxFilter {
+		if t == filter.FTBloom {
+			return bloom.NewTxFilter()
+		}
+		return nil
+	})
+	fl := r.f.GetFilterLoadMsg()
+	fl.Flags = flagsOf(mode)
+	buf := new(bytes.Buffer)
+	if err := fl.Serialize(buf); err != nil {
+		rep.Mismatch("serialize filter load: "+err.Error(), ctx)
+		return
+	}
+	if err := gf.Load(&msg.TxFilterLoad{Type: filter.FTBloom, Data: buf.Bytes()}); err != nil {
+		rep.Mismatch("load generic filter: "+err.Error(), ctx)
+		return
+	}
+	for _, st := range b {
+		a := st.Args()
+		switch st.Act() {
+		case "Add":
+			kind, data, op, err := w.item(a["item"])
+			if err != nil {
+				rep.Mismatch(err.Error(), ctx)
+				return
+			}
+			pan := guard(func() {
+				switch kind {
+				case "txid":
+					var h common.Uint256
+					copy(h[:], data)
+					r.f.AddHash(&h)
+				case "outpoint":
+					r.f.AddOutPoint(op)
+				default:
+					r.f.Add(data)
+				}
+				if err := gf.Add(data); err != nil {
+					panic(err)
+				}
+			})
+			if pan != nil {
+				rep.Violation("C39:panic:add", fmt.Sprintf("adding a %s to filter %s panicked: %v", kind, r.name, pan), ctx)
+				return
+			}
+		case "MatchTx":
+			j := rep.Int(a, "tx")
+			txs = append(txs, w.txs[j])
+			ids = append(ids, w.txs[j].Hash())
+			must = append(must, rep.Bool(st, "must"))
+			whys = append(whys, rep.Str(st, "why"))
+			js = append(js, j)
+		}
+	}
+	if len(txs) == 0 {
+		return
+	}
+	root, err := crypto.ComputeRoot(ids)
+	if err != nil {
+		rep.Mismatch("ComputeRoot: "+err.Error(), ctx)
+		return
+	}
+	blk := &types.Block{Header: common2.Header{Version: 1, MerkleRoot: root, Height: 7}, Transactions: txs}
+	type served struct {
+		name  string
+		m     *msg.MerkleBlock
+		idx   []uint32
+		check func(msg.MerkleBlock) ([]*common.Uint256, error)
+	}
+	var out []served
+	pan := guard(func() {
+		m1, i1 := bloom.NewMerkleBlock(blk, r.f)
+		m2, i2 := filter.NewMerkleBlock(blk.Transactions, gf)
+		m2.Header = &blk.Header
+		out = []served{{"bloom", m1, i1, bloom.CheckMerkleBlock}, {"filter", m2, i2, filter.CheckMerkleBlock}}
+	})
+	if pan != nil {
+		rep.Violation("C08:panic:NewMerkleBlock", fmt.Sprintf("building the merkle block for filter %s panicked: %v", r.name, pan), ctx)
+		return
+	}
+	for _, sv := range out {
+		var got []*common.Uint256
+		var cerr error
+		if pan := guard(func() { got, cerr = sv.check(*sv.m) }); pan != nil {
+			rep.Violation("C08:panic:CheckMerkleBlock", fmt.Sprintf("%s.CheckMerkleBlock panicked on a served message: %v", sv.name, pan), ctx)
+			return
+		}
+		if cerr != nil {
+			rep.Violation("C08:served-message-rejected", fmt.Sprintf("%s.CheckMerkleBlock rejects the message %s.NewMerkleBlock serves: %v", sv.name, sv.name, cerr), ctx)
+			return
+		}
+		rec := map[common.Uint256]bool{}
+		for _, h := range got {
+			rec[*h] = true
+		}
+		inIdx := map[uint32]bool{}
+		for _, i := range sv.idx {
+			inIdx[i] = true
+		}
+		for k := range txs {
+			steps++
+			if must[k] && (!rec[ids[k]] || !inIdx[uint32(k)]) {
+				rep.Violation("C08:matching-transaction-not-served:"+whys[k], fmt.Sprintf(
+					"%s.NewMerkleBlock for filter %s (update mode %s): transaction T%d at position %d matches the filter (%s) but the client "+
+						"recovers %d transactions without it (matched indexes %v)", sv.name, r.name, mode, js[k], k, whys[k], len(got), sv.idx), ctx)
+				return
+			}
+			if rec[ids[k]] != inIdx[uint32(k)] {
+				rep.Violation("C08:recovered-differs-from-matched", fmt.Sprintf(
+					"%s.NewMerkleBlock: transaction at position %d matched=%v but recovered from the served message=%v", sv.name, k, inIdx[uint32(k)], rec[ids[k]]), ctx)
 				return
 			}
 		}
